@@ -62,6 +62,36 @@ X operand(int slot, int variant) {
   (void)n;
   return rebuild<X>(c);
 }
+// range variants for the bit-exact comparisons (mode 4): variant v >= 100 puts one operand at an end of T's range - subnormal
+// or beyond the square root of the largest value - and leaves the other moderate. What the operator returns must still be,
+// bit for bit, what the same arithmetic on the stored values returns (both sides overflow or underflow alike).
+template <class X>
+X ranged(const X& x, int shift) {
+  if constexpr (vf::is_direction<X>) {
+    return x;
+  } else {
+    numof<X> c[9];
+    vf::comps(x, c);
+    for (int i = 0; i < vf::count_of<X>(); i++) c[i] = std::ldexp(c[i], shift);
+    return rebuild<X>(c);
+  }
+}
+template <class A, class B>
+std::pair<A, B> operands(int v) {
+  if (v < 100) return {operand<A>(0, v), operand<B>(1, v)};
+  using T = numof<A>;
+  const int sub = std::numeric_limits<T>::min_exponent - 10, far = std::numeric_limits<T>::max_exponent / 2 + 3;
+  const A a = operand<A>(0, 0);
+  const B b = operand<B>(1, 0);
+  switch (v - 100) {
+    case 0: return {ranged(a, sub), b};
+    case 1: return {a, ranged(b, sub)};
+    case 2: return {ranged(a, far), b};
+    case 3: return {a, ranged(b, far)};
+    case 4: return {ranged(a, far), ranged(b, far)};
+    default: return {ranged(a, sub), ranged(b, -far)};
+  }
+}
 // positive magnitudes 2^e * m, component i scaled by (1 + i/16)
 template <class X>
 X positive_operand(int e, long double m) {
@@ -103,6 +133,17 @@ bool finite(const X& x) {
   for (int i = 0; i < vf::count_of<X>(); i++)
     if (!std::isfinite(c[i])) return false;
   return true;
+}
+// every component finite and the largest one a normal number
+template <class X>
+bool normal(const X& x) {
+  numof<X> c[9], m = 0;
+  vf::comps(x, c);
+  for (int i = 0; i < vf::count_of<X>(); i++) {
+    if (!std::isfinite(c[i])) return false;
+    m = std::fmax(m, std::fabs(c[i]));
+  }
+  return m >= std::numeric_limits<numof<X>>::min();
 }
 template <class X>
 std::string show(const X& x) {
@@ -227,9 +268,9 @@ void exact_op(const char* sig, char op, F f, G rawf, bool raw_applies) {
   } else {
     using T = numof<R>;
     const int nv = thorough ? 6 : 5;
-    for (int v = 0; v < nv; v++) {
-      const A a = operand<A>(0, v);
-      const B b = operand<B>(1, v);
+    for (int v = 0; v < 106; v++) {
+      if (v == nv) v = 100;
+      const auto [a, b] = operands<A, B>(v);
       const R r = f(a, b);
       vf::stat("operator_evaluations");
       if (raw_applies) {
@@ -255,9 +296,9 @@ void twin(const char* sig, F opf, G ctorf) {
   using R = std::decay_t<std::invoke_result_t<F, const A&, const B&>>;
   using T = numof<R>;
   const int nv = thorough ? 6 : 5;
-  for (int v = 0; v < nv; v++) {
-    const A a = operand<A>(0, v);
-    const B b = operand<B>(1, v);
+  for (int v = 0; v < 106; v++) {
+    if (v == nv) v = 100;
+    const auto [a, b] = operands<A, B>(v);
     const R r1 = opf(a, b);
     const R r2 = ctorf(a, b);
     T x[9], y[9];
@@ -290,26 +331,44 @@ void inverse2(const char* sig, F f, G g) {
   using C = std::decay_t<std::invoke_result_t<F, const A&, const B&>>;
   using T = numof<A>;
   constexpr int na = vf::count_of<A>();
-  const std::vector<int> es = std::is_same_v<T, float> ? std::vector<int>{-20, -12, -1, 0, 3, 17, 20} : std::vector<int>{-40, -12, -1, 0, 3, 17, 40};
+  // Decided domain: moderate magnitudes in every combination (2^-20..2^20 for float, 2^-40..2^40 otherwise, full mantissas).
+  // Thorough tier, for information only (no verdict): one operand at a time at the ends of T's range - a subnormal value, a
+  // value whose square underflows, a value whose square overflows. There the unchanged library itself departs in some twenty
+  // pairs for reasons inherent to a finite range (gamma/(gamma-1) cancelling, sqrt(K/rho) with K/rho outside the range), so
+  // no verdict that is both sound and specific exists; the departures are counted and named in the evidence.
+  const int sub = std::numeric_limits<T>::min_exponent - 12, far = std::numeric_limits<T>::max_exponent / 2 + 2;
+  const std::vector<int> mod = std::is_same_v<T, float> ? std::vector<int>{-20, -12, -1, 0, 3, 17, 20} : std::vector<int>{-40, -12, -1, 0, 3, 17, 40};
+  std::vector<std::pair<int, int>> grid;
+  for (int ea : mod)
+    for (int eb : mod) grid.push_back({ea, eb});
+  if (thorough)
+    for (int x : {sub, -far, far})
+      for (int m : {-12, 0, 17}) {
+        grid.push_back({x, m});
+        grid.push_back({m, x});
+      }
+  bool departed = false;
   const long double ms[] = {1.0L, 1.375L, 1.9L};
   double worst = 0;
-  for (int ea : es)
+  for (auto [ea, eb] : grid)
     for (long double ma : ms)
-      for (int eb : es)
-        for (long double mb : ms) {
+      for (long double mb : ms)
+        {
+          const bool extreme = ea == sub || eb == sub || ea == far || eb == far || ea == -far || eb == -far;
           if (!thorough && !(mb == 1.375L || (ma == 1.0L && eb == ea))) continue;
           const A a = positive_operand<A>(ea, ma);
           const B b = positive_operand<B>(eb, mb * 1.09375L);
           const C c = f(a, b);
-          if (!finite(c)) {
+          if (!finite(c) || (extreme && !normal(c))) {
             vf::stat("skipped_nonfinite");
             continue;
           }
           const A back = g(c, b);
-          if (!finite(back)) {
+          if (!finite(back) && !extreme) {
             vf::stat("skipped_nonfinite");
             continue;
           }
+          if (extreme) vf::stat("range_end_round_trips_information_only");
           T x[9], y[9];
           vf::comps(a, x);
           vf::comps(back, y);
@@ -328,9 +387,17 @@ void inverse2(const char* sig, F f, G g) {
             if constexpr (!vf::is_direction<B>)
               for (int k = 0; k < vf::count_of<B>(); k++) absorb(g(c, nudged(b, k, d)));
           }
-          vf::stat("round_trips");
+          if (!extreme) vf::stat("round_trips");
           for (int i = 0; i < na; i++) {
             const double r = (double)(fabsq((f128)y[i] - (f128)x[i]) / tol[i]);
+            if (extreme) {
+              if (!(r <= 1.0) && !departed) {
+                departed = true;
+                vf::stat("range_end_departures_information_only");
+                vf::setadd("pairs_departing_at_range_ends", std::string(sig) + " [" + vf::TName<T>::value + "]");
+              }
+              continue;
+            }
             if (r > worst) worst = r;
             if (!(r <= 1.0)) {
               vf::viol(std::string("inverse|") + sig + "|" + vf::TName<T>::value, std::string("{\"pair\":") + vf::jstr(sig) + ",\"a\":" + show(a) + ",\"b\":" + show(b) + ",\"c=f(a,b)\":" + show(c) +
@@ -350,15 +417,18 @@ void inverse1(const char* sig, F f, G g) {
   if constexpr (vf::count_of<C>() < na) {
     return;  // only the direction starting from the smaller shape is an identity (lossless embedding)
   } else {
+    const int sub = std::numeric_limits<T>::min_exponent - 12, far = std::numeric_limits<T>::max_exponent / 2 + 2;
     const std::vector<int> es = std::is_same_v<T, float> ? std::vector<int>{-20, -12, -1, 0, 3, 17, 20} : std::vector<int>{-40, -12, -1, 0, 3, 17, 40};
     double worst = 0;
     for (int ea : es)
       for (long double ma : {1.0L, 1.375L, 1.9L}) {
         const A a = positive_operand<A>(ea, ma);
+        const bool extreme = ea == sub || ea == far || ea == -far;
         const C c = f(a);
-        if (!finite(c)) continue;
+        if (!finite(c) || (extreme && !normal(c))) continue;
         const A back = g(c);
-        if (!finite(back)) continue;
+        if (!finite(back) && !extreme) continue;
+        if (extreme) vf::stat("round_trips_at_range_ends");
         T x[9], y[9];
         vf::comps(a, x);
         vf::comps(back, y);
@@ -378,7 +448,7 @@ void inverse1(const char* sig, F f, G g) {
           const double r = (double)(fabsq((f128)y[i] - (f128)x[i]) / tol[i]);
           if (r > worst) worst = r;
           if (!(r <= 1.0)) {
-            vf::viol(std::string("inverse|") + sig + "|" + vf::TName<T>::value,
+            vf::viol(std::string("inverse|") + sig + "|" + vf::TName<T>::value + (extreme ? "|range-end" : ""),
                      std::string("{\"pair\":") + vf::jstr(sig) + ",\"a\":" + show(a) + ",\"c=f(a)\":" + show(c) + ",\"g(c)\":" + show(back) + ",\"error_over_tolerance\":" + std::to_string(r) + "}");
             return;
           }
